@@ -103,7 +103,11 @@ pub(crate) fn inv() {
             }
             _ => false,
         };
-        assert!(ok, "VP-C05: original bytes neither at the original path, nor under the temporary name, nor completely replaced");
+        if OP == OP_MOVE {
+            assert!(ok, "VP-C05/C18/C02: moved file neither at its source path nor complete at the target (source removed before the copy was complete)");
+        } else {
+            assert!(ok, "VP-C05/C02: original bytes neither at the original path, nor under the temporary name, nor completely replaced");
+        }
     }
 }
 
